@@ -46,6 +46,8 @@ def _line(maxlen):
         st.just(""),
         st.sampled_from([":type <<P0>>:", ":param <<P0>>:", ":type <<P0>>: ", ":type <<P0>>: given", ":returns:"]),
         # the text of the doccomment's own opening line, again, alone or at the end of a body line
+        # ruler / banner lines
+        st.sampled_from(["=====", "    ----", "~~~~~~~~", "****", "++++", "^^^^", "____", "==== ====", "#####", "-=-=-=-"]),
         st.sampled_from(["<<HDR>>", "Files are tagged with <<HDR>>", "<<HDR>> once more", "#[[[", "#]", "#[[[ <<HDR>>"]),
         body,
         st.builds(lambda a, b, c: a + b + c, start, body, tail),
